@@ -86,6 +86,7 @@ func init() {
 		lru := run.Rule("DT-lru", "the LRU cache stores a new entry holding exactly the given expanded key under the given key and evicts the oldest element's own entry exactly at capacity", 3)
 		shf := run.Rule("SHARED-fresh", "initialisers of shared precomputed types install freshly allocated tables and never write through a table pointer loaded from the object", 2)
 		shh := run.Rule("SHARED-handle", "no function stores into the own fields of a lock-free handle shared by all goroutines (the caching verifier) after construction", 1)
+		cdl := run.Rule("DT-cache-delegation", "the caching verifier fails without verifying when the key cannot be obtained and otherwise delegates with the expanded key it obtained itself", 6)
 		shr := run.Rule("SHARED-readonly", "no function writes through a parameter of a shared precomputed type except that type's own initialisers", 60).RequireControl(1)
 		lacc := run.Rule("LOCK-access", "every access to a field of a mutex-containing struct holds the lock (or is in a constructor / a helper whose callers all hold it)", 8).RequireControl(1)
 		latm := run.Rule("LOCK-atomic", "every externally callable method of a mutex-containing struct takes the lock first and releases it by defer", 2).RequireControl(1)
@@ -161,6 +162,13 @@ func init() {
 				ecfg := &edt.Config{P: p, Mod: m}
 				for _, s := range c09LRUSpecs() {
 					edt.Check(lru, ecfg, s)
+				}
+				// the caching verifier uses the expanded key it expanded or found — never a second, unchecked
+				// look-up that a concurrent eviction can turn into nil (delegation tables of C09)
+				for _, s := range c09MoreSpecs() {
+					if s.Pkg == "primitives/ed25519/extra/cache" {
+						edt.Check(cdl, ecfg, s)
+					}
 				}
 			}
 			// locks
